@@ -121,7 +121,7 @@ CHECKS = {
             "precondition and counted",
             "DESIGN.md §2 C12"),
     "C18": ("model-based property testing of operation histories (Hypothesis, operation sequences as data), round-trip oracle",
-            "Generated histories of single/bulk inserts with and without deferred commit/index, repeated inserts of known nodes and edges, connect_parallelroads, re-indexing, commits and 1-4 "
+            "Generated histories of single/bulk inserts with and without deferred commit/index, repeated inserts of known nodes and edges, connect_parallelroads, re-indexing, commits, a prior map of the other metric under the same file name, and 1-4 "
             "close/reopen (or dump/load) cycles on SQLite files and InMemMap pickles; at every reopen the metric flag, the module "
             "of the distance functions, projection settings and every listing / neighbour / spatial answer must equal the answers "
             "before closing and the model. Exploration.",
